@@ -216,6 +216,18 @@ def step (st : State) (m : Mon) (op res : List String) : Mon × Option (Option S
       match m.get h with
       | none => (m, none)
       | some o => if o.kind != "verify" then (m, none) else finish o (some (hexArg a))
+    else if opn == "digkey" then
+      -- C_DigestKey feeds the key's VALUE into the running digest like C_DigestUpdate does; when the model does not hold the value (or the call failed) the
+      -- operation is no longer followed
+      match m.get h with
+      | none => (m, none)
+      | some o =>
+        if o.kind != "digest" then (m, none)
+        else if rv != 0 then (m.drop h, none)
+        else
+          match (resolveObj st (((res.getD 2 "").toNat?).getD 0)).bind (fun x => knownValue x.2.attrs) with
+          | some v => (m.set h { o with inp := o.inp ++ v }, none)
+          | none => (m.drop h, none)
     else (m, none)
   | _ => (m, none)
 
